@@ -85,6 +85,27 @@ def normal_form(expr, params, assigns, depth=0):
     return ('other', src)
 
 
+def documented(repo_root):
+    """docs/narr/introspector.rst -> {category: [documented keys]} (headings at column 0 / 2)."""
+    import re
+    cats, cur = {}, None
+    generic = {'title', 'category_name', 'discriminator', 'discriminator_hash', 'type_name', 'action_info'}
+    with open(os.path.join(repo_root, 'docs', 'narr', 'introspector.rst')) as f:
+        for line in f:
+            m = re.match(r'^``([^`]+)``\s*$', line)
+            if m:
+                cur = m.group(1)
+                if cur not in generic:
+                    cats[cur] = []
+                else:
+                    cur = None
+                continue
+            m = re.match(r'^  ``([^`]+)``\s*$', line)
+            if m and cur:
+                cats[cur].append(m.group(1))
+    return cats
+
+
 def extract(src_root):
     sites, problems = [], []
     for base in FILES:
@@ -137,7 +158,21 @@ def extract(src_root):
                         elif isinstance(m, ast.Call) and isinstance(m.func, ast.Attribute) \
                                 and isinstance(m.func.value, ast.Name) and m.func.value.id == var:
                             if m.func.attr == 'update':
-                                site['updates'].append(ast.unparse(m.args[0]) if m.args else ast.unparse(m))
+                                arg = m.args[0] if m.args else None
+                                pairs = None
+                                if isinstance(arg, ast.Call) and isinstance(arg.func, ast.Name) and arg.func.id == 'dict' \
+                                        and not arg.args and all(kw.arg for kw in arg.keywords):
+                                    pairs = [(kw.arg, kw.value) for kw in arg.keywords]
+                                elif isinstance(arg, ast.Dict) and all(isinstance(k, ast.Constant) and isinstance(k.value, str)
+                                                                       for k in arg.keys):
+                                    pairs = [(k.value, v) for k, v in zip(arg.keys, arg.values)]
+                                if pairs is None:
+                                    site['updates'].append(ast.unparse(arg) if arg is not None else ast.unparse(m))
+                                else:
+                                    for k, v in pairs:
+                                        site['keys'].append({'key': k, 'src': ast.unparse(v),
+                                                             'form': list(normal_form(v, params, assigns)),
+                                                             'line': m.lineno})
                             elif m.func.attr in ('relate', 'unrelate'):
                                 site['relates'].append([m.func.attr, ast.unparse(m.args[0]), ast.unparse(m.args[1])])
                     sites.append(site)
